@@ -12,12 +12,15 @@ package engine
 // procedure after the assertion to *userDefined succeeded (the table holds no nil *userDefined: entries are made from
 // &userDefined{...} only; stated as a precondition, as for text.clauses in the C20 contracts).
 //@ func Retract
-//@   property C05
+//@   property C05 C09
 //@   requires vm != nil
 //@   requires[a-user-defined-procedure-in-the-table-is-an-object] forall q procedureIndicator :: has(vm.procedures, q) && vm.procedures[q] is *userDefined ==> (vm.procedures[q] as *userDefined) != nil
 //@   safety only tassert nil
-//@   checks only tassert nil
+//@   checks only tassert nil at-call at-call-missing
 //@   trusted-frame
+//@   loop 1 invariant true
+//@   at-call Delay requires[every-clause-of-the-snapshot-is-an-alternative] a0 == ks && len(a0) == len(u.clauses)
+//@   at-call rulify#2 requires[each-alternative-is-matched-against-the-stored-term-of-its-own-clause] a0 == c.raw && a1 == env
 
 //@ func intPow
 //@   property C05 C07
